@@ -38,9 +38,13 @@ def fbool(value):
 
 def fboolorfloat(value):
     """Bool or float"""
-    if isinstance(value, (str, bool)) or value == 0:
+    if isinstance(value, np.ndarray) and value.ndim == 0:
+        # zero-dimensional array
+        value = value.item()
+    # HDF5 attributes are returned as numpy scalars (np.bool_, np.int64)
+    if isinstance(value, (str, bool, np.bool_)) or value == 0:
         return fbool(value)
-    elif isinstance(value, (int, float)):
+    elif isinstance(value, numbers.Real):
         return float(value)
     else:
         raise ValueError(f"Value could not be converted to bool "
